@@ -42,7 +42,7 @@ def obs_tuple(o):
 
 
 def run(ctx):
-    n = 500 if ctx.thorough() else 90
+    n = 700 if ctx.thorough() else 110
     proof_ok, detail = True, {}
     ok, out = ctx.regen(["clientsites"])
     if not ok:
@@ -109,7 +109,7 @@ def run(ctx):
             report("%s/%s" % (o["outcome"], sig), "Connect did not return: " + (o.get("err") or "")[:200], o)
         elif mode != 1 and sig not in VALID:
             if o["outcome"] == "value":
-                report("accepted/%s/%s/%d" % (sig, pol, mode), "Connect succeeded although the server's session signature does not verify", o)
+                report("accepted/%s/%s/%d%s" % (sig, pol, mode, "/chain" if o["case"]["p"].get("chain") else ""), "Connect succeeded although the server's session signature does not verify", o)
             elif st != 0 or sess or o.get("activates", 0) > 0:
                 report("half-open/%s" % sig, "Connect failed but state=%s session=%s activates=%s" % (st, sess, o.get("activates")), o)
         elif o["outcome"] == "error":
@@ -149,11 +149,11 @@ def run(ctx):
         ctx.notes.append("observation (not a violation of C22 as stated): a CreateSessionResponse carrying a DIFFERENT certificate than the one the "
                          "channel was opened with, and a signature valid under that other certificate, is accepted (%d cases): the client verifies "
                          "against the certificate in the response and never compares it with the channel's RemoteCertificate." % len(accepted_foreign))
-    cfgs = collections.Counter((o["case"]["s"]["policy"], o["case"]["p"]["mode"], o["case"]["s"]["sig"]) for o in obs)
+    cfgs = collections.Counter((o["case"]["s"]["policy"], o["case"]["p"]["mode"], o["case"]["s"]["sig"], o["case"]["p"].get("chain", 0)) for o in obs)
     ctx.coverage.update({
         "evaluations": len(obs),
         "distinct_nontrivial": len([k for k in cfgs if k[1] != 1]),
-        "rule": "quick: a seeded sample of the matrix {5 signed policies} x {Sign, SignAndEncrypt} x {23 signature / certificate / algorithm-label variants} that contains every variant and every policy x mode, plus None controls; thorough: the whole matrix (230 + 23) and seeded repeats; distinct = distinct (policy, mode, variant) with a secured mode",
+        "rule": "quick: a seeded sample of the matrix {5 signed policies} x {Sign, SignAndEncrypt} x {23 signature / certificate / algorithm-label variants} x {client certificate single, chain of two (2 policies)} that contains every variant and every policy x mode, plus None controls; thorough: the whole matrix (230 + 23) and seeded repeats; distinct = distinct (policy, mode, variant) with a secured mode",
         "samples": [{k: o.get(k) for k in ("case", "outcome", "err", "obs", "activates")} for o in obs[len(replays):len(replays) + 3] + obs[-2:]],
         "outcomes": {"%s/%s/%s" % k: v for k, v in sorted(collections.Counter((o["case"]["s"]["sig"], "secured" if o["case"]["p"]["mode"] != 1 else "none", o["outcome"]) for o in obs).items())},
         "policies": sorted({o["case"]["s"]["policy"] for o in obs}),
